@@ -405,7 +405,11 @@ func (e *Explorer) Explore(mk func() Run) *Stats {
 				}
 				if ok {
 					seenClass[class] = true
-					st.Violations = append(st.Violations, Violation{Class: class, Msg: msg, Choices: res.Choices, Trace: res.Schedule()})
+					tr := res.Schedule()
+					if len(tr) > 400 { // a run that hit the step horizon: keep how it starts and where it is stuck
+						tr = append(append(append([]string{}, tr[:250]...), fmt.Sprintf("... %d steps omitted ...", len(tr)-350)), tr[len(tr)-100:]...)
+					}
+					st.Violations = append(st.Violations, Violation{Class: class, Msg: msg, Choices: res.Choices, Trace: tr})
 				} else {
 					st.Exhaustive = false
 					st.Why = "a failing execution did not replay identically (nondeterminism not under control); not reported as a violation: " + class
